@@ -9,6 +9,7 @@ mod tables;
 mod mem;
 mod rt;
 mod cpubus;
+mod lcd;
 
 use std::io::{self, BufRead, Write};
 use std::sync::atomic::{AtomicU64, Ordering};
@@ -57,6 +58,7 @@ fn main() {
         "mem" => mem::main(),
         "rt" => rt::main(),
         "cpubus" => cpubus::main(),
+        "lcd" => lcd::main(),
         _ => {
             eprintln!("usage: vrt <exec|...>");
             std::process::exit(64);
